@@ -338,9 +338,13 @@ func Run(cases []reg.Case, out *reg.Out) {
 var flagSets = []string{"ISR", "ISR", "IS", "SR", "R", "-", "ISRD", "ISRDE"}
 
 // GenWorld writes a `dag` line and returns the world it denotes
-func GenWorld(r *rand.Rand, w *bufio.Writer, maxBlocks int) (*World, string) {
+func GenWorld(r *rand.Rand, w *bufio.Writer, maxBlocks int, plainOnly bool) (*World, string) {
 	seed := r.Int63n(1 << 40)
 	flags := flagSets[r.Intn(len(flagSets))]
+	if plainOnly {
+		// no identity CIDs / zero-length blocks: the real stacks treat those specially (other properties)
+		flags = flagSets[r.Intn(6)]
+	}
 	kind := "gen"
 	if r.Intn(8) == 0 {
 		kind = "matcher"
@@ -383,7 +387,7 @@ func Gen(seed int64, n int, tier string, w *bufio.Writer) {
 		if r.Intn(6) == 0 {
 			mb = 1 + r.Intn(2)
 		}
-		ww, lt := GenWorld(r, w, mb)
+		ww, lt := GenWorld(r, w, mb, false)
 		nstores := 1 + r.Intn(2)
 		for s := 0; s < nstores; s++ {
 			hs, have := heldString(ww.D, r)
@@ -431,7 +435,7 @@ func Gen(seed int64, n int, tier string, w *bufio.Writer) {
 		// every budget 1..need+2 and every store subset for small DAGs
 		for i := 0; i < n/20; i++ {
 			fmt.Fprintf(w, "case bx%d\n", i)
-			ww, lt := GenWorld(r, w, 1+r.Intn(5))
+			ww, lt := GenWorld(r, w, 1+r.Intn(5), false)
 			subsets := ww.D.Subsets(5)
 			for m, have := range subsets {
 				var list []int
